@@ -148,7 +148,7 @@ func runCheck(repo, contracts string, args []string, tier string, timeout time.D
 			defer wg.Done()
 			sem <- struct{}{}
 			defer func() { <-sem }()
-			results[i] = verifyFunction(w, fn, timeout, thorough)
+			results[i] = verifyFunction(w, fn, timeout, thorough && os.Getenv("BMCVC_CROSSCHECK") != "")
 		}(i, fn)
 	}
 	wg.Wait()
